@@ -165,7 +165,7 @@ func (g *gemExtension) init(input string) error {
 		elements = append(elements, gemElement{str: str})
 	}
 	// Trim trailing zeros.
-	for len(elements) > 0 && elements[len(elements)-1].str == "0" {
+	for len(elements) > 0 && isGemZero(elements[len(elements)-1].str) {
 		elements = elements[:len(elements)-1]
 	}
 	// Integers for numbers.
@@ -184,6 +184,11 @@ func (g *gemExtension) init(input string) error {
 	}
 	g.elems = elements
 	return nil
+}
+
+// isGemZero reports whether the element is the number zero, however spelled.
+func isGemZero(s string) bool {
+	return s != "" && strings.Trim(s, "0") == ""
 }
 
 // compare uses RubyGems's rules to decide the ordering of the receiver and argument.
@@ -251,7 +256,11 @@ func (g *gemExtension) compare(e extension) int {
 			return -1
 		}
 		if ac == versionNumeric {
-			return sgn64(a.int, b.int)
+			// Equal numbers may be spelled differently ("00" and "0").
+			if c := sgn64(a.int, b.int); c != 0 {
+				return c
+			}
+			continue
 		}
 		c := strings.Compare(a.str, b.str)
 		if c == 0 {
